@@ -118,6 +118,19 @@ _orig_check_exprs = checker.check_exprs
 _last_check = {}
 
 
+def dup_decls(exprs):
+    """names declared or defined more than once on the top level of a candidate"""
+    seen, dup = set(), set()
+    for c in exprs:
+        if not c.is_leaf() and len(c) > 1 and c[0].is_leaf() and c[1].is_leaf() and c[0].data in (
+                'declare-const', 'declare-fun', 'define-fun', 'define-const', 'define-fun-rec', 'declare-sort', 'define-sort'):
+            n = c[1].data
+            if n in seen:
+                dup.add(n)
+            seen.add(n)
+    return sorted(dup)
+
+
 def check_exprs(exprs):
     if WD and os.getpid() != MAIN_PID:
         time.sleep(_rnd.randint(0, WD) / 1000.0)
@@ -128,7 +141,11 @@ def check_exprs(exprs):
     except BaseException as e:
         log('check', digest=d, verdict=f'exception:{type(e).__name__}')
         raise
-    log('check', digest=d, verdict=bool(r))
+    dd = dup_decls(exprs)
+    if dd:
+        log('check', digest=d, verdict=bool(r), dup_decl=dd)
+    else:
+        log('check', digest=d, verdict=bool(r))
     return r
 
 
@@ -336,7 +353,7 @@ _orig_parse = nodeio.parse_smtlib
 
 def parse_smtlib(text):
     res = list(_orig_parse(text))
-    log('parsed', digest=dig(res), nexprs=len(res))
+    log('parsed', digest=dig(res), nexprs=len(res), dup_decl=dup_decls(res))
     return iter(res)
 
 
